@@ -297,3 +297,47 @@ if __name__ == "__main__":
     print("unparsable:", len(r["unparsable"]), "unknown:", r["unknown_docs"], r["stats"])
     if "-v" in sys.argv:
         json.dump(r["unparsable"], sys.stdout, indent=1)
+
+
+# ------------------------------------------------------------------ what the documents say about identifier NAMES
+def name_spec(docs_dir: Path | None = None) -> dict:
+    """Identifier renaming ("with its identifiers renamed") must keep an example inside the behaviour its document
+    describes.  Where a document defines a pattern or an exemption BY NAME, the renaming has to respect it:
+      keep_*    identifiers that are part of the documented pattern and therefore stay as they are
+      forbid_*  new names that would move an identifier into a documented name-defined pattern or exemption
+    Every rule is read from the document text (fail-closed: a phrase that is gone is reported in `problems`)."""
+    docs_dir = docs_dir or (REPO / "docs")
+    spec, problems = {}, []
+
+    def text_of(stem):
+        try:
+            return (docs_dir / f"{stem}-linter.md").read_text(encoding="utf-8")
+        except OSError:
+            problems.append(f"{stem}-linter.md unreadable")
+            return ""
+
+    # performance: "- Variables named: result, output, ..." (variables with these names count as strings)
+    t = text_of("performance")
+    m = re.findall(r"^- Variables named:\s*(.+)$", t, re.M)
+    if len(m) == 1:
+        names = [x.strip().strip("`").lower() for x in m[0].split(",")]
+        spec["perf"] = {"keep_exact_lower": names, "forbid_exact_lower": names}
+    else:
+        problems.append("performance-linter.md: `Variables named:` line not found")
+    # improper-logging: conditional-verbose is defined by verbose-like conditions around logger / logging calls
+    t = text_of("improper-logging")
+    if "verbose-like conditions" in t and "if verbose:" in t and "logger.debug()" in t:
+        spec["improper-logging"] = {"keep_contains_lower": ["verbose"], "forbid_contains_lower": ["verbose"],
+                                    "keep_exact_lower": ["logger", "logging", "log"]}
+    else:
+        problems.append("improper-logging-linter.md: the description of verbose-like conditions changed")
+    # method-property: dunder methods and action verbs (default prefixes / names) are documented exclusions
+    t = text_of("method-property")
+    mp = re.search(r"\*\*Default Prefixes\*\*[^\n]*\n- (.+)", t)
+    mn = re.search(r"\*\*Default Names\*\*[^\n]*\n- (.+)", t)
+    if mp and mn and "Are dunder methods" in t:
+        spec["method-property"] = {"fn_forbid_prefixes": [x.rstrip("*") for x in re.findall(r"`([a-z_]+\*?)`", mp.group(1))],
+                                   "fn_forbid_names": re.findall(r"`([a-z_]+)`", mn.group(1)), "fn_forbid_dunder": True}
+    else:
+        problems.append("method-property-linter.md: default exclusion lists / dunder rule not found")
+    return {"spec": spec, "problems": problems}
